@@ -363,6 +363,24 @@ def check(recipe) -> list[Fail]:
             if not iso(g0, gv):
                 fails.append(Fail("label-resolves-to-different-fragment", f"{where}: original {describe(g0)} | variant {describe(gv)}", recipe=sub))
                 continue
+            # -- determinism also across the history of one handle: the first result is edited by its owner,
+            #    the same label asked again must still be the drawing
+            c0 = np.array(m0.coords)
+            try:
+                with warnings.catch_warnings():
+                    warnings.simplefilter("ignore")
+                    m0.add_implicit_hydrogens()
+                    m0.translate([1.0, -2.0, 0.5])
+                    m0.name = "edited"
+                    if m0.n_atoms:
+                        m0.atoms[0].label = "edited"
+                    np.random.seed(4)
+                    m0b = orig[key]
+            except Exception as e:
+                fails.append(Fail(f"second-request-raises:{exc_sig(e.__cause__ or e) or type(e).__name__}", f"{where}: {e!r}"[:300], recipe=sub))
+                continue
+            if m0b is m0 or not iso(g0, mol_graph(m0b)) or m0b.name != key or not np.array_equal(c0, m0b.coords, equal_nan=True):
+                fails.append(Fail("second-request-of-a-label-reflects-edits-of-the-first-result", f"{where}: first {describe(g0)} | after the caller edited it, asked again: {describe(mol_graph(m0b))} name={m0b.name!r}", recipe=sub))
             # -- determinism
             if not np.array_equal(mv.coords, mv2.coords, equal_nan=True):
                 fails.append(Fail("parse-not-deterministic", f"{where}: max coordinate difference {np.nanmax(np.abs(mv.coords - mv2.coords)):.3e} between two parses", recipe=sub))
